@@ -27,6 +27,9 @@ func TestRace(t *testing.T) {
 			if err != nil {
 				t.Fatal(err)
 			}
+			for _, pr := range p.pre {
+				a.Ingress.ServeHTTP(httptest.NewRecorder(), request(pr.raw))
+			}
 			os.WriteFile(a.ConfigPath, []byte(p.new), 0o644)
 			var wg sync.WaitGroup
 			wg.Add(3)
